@@ -50,6 +50,12 @@ CLAIMED["C03"] = dict(
    note=NOTE + " Kept out on purpose: numeric/contextual/date sorts (C13's world), spark without --notruncate, order-sensitive reduce accumulators, zero/negative totals for bar-style renderers (C14), injected read errors (C06). One known finding (padding of table/heatmap/spark/bars depends on render cadence) is listed in known_findings.json.",
    tech=TECH + "; metamorphic comparison across seeded variants of one scenario")
 
+CLAIMED["C13"] = dict(
+   text="Order-independence clauses only. Seeded search over scenarios (a multiset of keys/counts from comparator-stressing pools x histo/table/bars x sort mode and modifier), each run in-process under 4-6 variants that change only map-iteration salt, arrival order, schedule/worker count, division among files and read latencies (number of intermediate renders on the fake clock, which feeds the sorter instance a command keeps for life); the row/column label sequences of the final snapshots must be identical, `:reverse` must mirror, equivalent spellings must agree. Evidence over explored scenarios, not proof.",
+   ref="DESIGN.md section 5 C13",
+   note=NOTE + " Not decided (pure, no schedule in it): that numeric means magnitude, contextual calendar position, date chronological, value larger-first. One known finding (--sort date with keys of mixed layouts) is listed in known_findings.json.",
+   tech=TECH + "; metamorphic comparison of label sequences across seeded variants of one data set")
+
 NA = {
  "C07": "pure: a sequential data structure folded over a sample list; no schedule, clock or fault in it (the end state for orders the pipeline produces is compared to an independent fold by C03's oracle)",
  "C08": "pure function of (template, context): nothing to schedule or fault; input generation would not be simulation",
@@ -57,7 +63,6 @@ NA = {
  "C10": "check under construction in this session",
  "C11": "documented semantics of scalar helpers: pure functions of their arguments",
  "C12": "dissect vs its specification is pure per (pattern, line); its slice-lifetime clause is exercised through C02's retained matches",
- "C13": "check under construction in this session",
  "C14": "renderers are pure functions of aggregator state and scale",
  "C16": "validity/faithfulness of JSON text are pure functions of the captured bytes; the determinism clause (map order) is exercised replayably by C03's {.}-keyed scenario under the map-order seam (it found the member-order defect fixed in 55685c5)",
  "C17": "list semantics of array helpers are pure; the concurrent-evaluation clause is the shared-pool concurrency that C10's world and C05's race leg exercise",
